@@ -6,7 +6,7 @@ import sympy as sp
 
 from ..spec import Checker, FR, obj_summary
 from ..sigmodel import make_signal, N, NCHAN, CF, BW, SR, T0
-from ..values import Num, StrV, ObjV, NONE, Hz, pc, cm, F, NONE_S
+from ..values import Num, StrV, ObjV, NONE, Hz, pc, cm, F, NONE_S, ExtV
 from ..extapi import StackV
 from .. import terms
 from .c13 import meta_same
@@ -39,6 +39,8 @@ def destructure_item(expr):
     if expr.func != F["Idx"]:
         return None
     base, idx = expr.args
+    if idx.func == F["Slc"]:
+        idx = F["Tup"](idx)          # x[a:b] on the array itself
     if idx.func != F["Tup"] or not idx.args or idx.args[0].func != F["Slc"]:
         return None
     lo, hi, st = idx.args[0].args
@@ -175,7 +177,121 @@ def check(run, prog):
         bad_meta = meta_same(z, out, skip=("_data", "_start_time"))
         ck.same("R2", f_inc.where, "ledger " + tag, "type, frequency labels and the other metadata are kept; only start_time may change",
                 out.cls is z.cls and not bad_meta, found="; ".join(bad_meta) or obj_summary(out), nontrivial=True)
+    # ------------------------------------------------------------------ R3: realignment for concrete delay patterns
+    realign_concrete(ck, prog, f_inc, f_sd, dm)
     run.extra["decided_by"] = ck.how
+
+
+def per_channel(val, D, nchan):
+    """The returned data as [(lo, hi, source channel)] per output channel, for the shapes a realignment can take: channels
+    stacked one by one, blocks of channels concatenated along the frequency axis, or one slice of the whole array."""
+    def one(expr):
+        ds = destructure_item(expr)
+        if ds is None or ds[0] != D or ds[3] != NONE_S:
+            return None
+        return ds
+    if isinstance(val, StackV):
+        if val.axis != 1:
+            return None
+        out = []
+        for it in val.items:
+            ds = one(it.expr)
+            if ds is None or len(ds[4]) < 1 or not sp.sympify(ds[4][0]).is_Integer:
+                return None
+            out.append((ds[1], ds[2], int(ds[4][0])))
+        return out
+    if not isinstance(val, Num):
+        return None
+    e = val.expr
+    parts = [e]
+    if e.func == F["Concat"]:
+        if e.args[1] != 1:
+            return None
+        parts = list(e.args[0].args)
+    out = []
+    for p_ in parts:
+        ds = one(p_)
+        if ds is None:
+            return None
+        rest = ds[4]
+        if not rest:
+            a, b = 0, nchan
+        elif rest[0].func == F["Slc"]:
+            a, b, st = rest[0].args
+            if st != NONE_S:
+                return None
+            a = 0 if a == NONE_S else a
+            b = nchan if b == NONE_S else b
+            if not (sp.sympify(a).is_Integer and sp.sympify(b).is_Integer):
+                return None
+            a, b, _ = slice(int(a), int(b)).indices(nchan)
+        else:
+            return None
+        for c in range(a, b):
+            out.append((ds[1], ds[2], c))
+    return out
+
+
+def realign_concrete(ck, prog, f_inc, f_sd, dm):
+    """incoherent_dedispersion with sample_delay replaced by fixed per-channel delays (the delay law is R1/R2's business):
+    whichever way the source slices the data - per channel, in blocks of equal delay, in one go - output channel i must be
+    input channel i over [crop + round(d_i), crop + round(d_i) + N') with crop = -min(0, r_first, r_last), N' = N - max."""
+    from ..extapi import NdArr
+    import math
+    pats = [("positive DM", ["4.6", "3.2", "2.9", "0.4", "-1.7"]), ("negative DM", ["-3.4", "-1.2", "-0.6", "0.2", "2.7"]),
+            ("sub-sample delays", ["0.3", "0.2", "0.1", "-0.1"]), ("reference above the band", ["7.2", "5.1", "5.4", "3.3"][:1] + ["6.1", "5.2", "3.3"]),
+            ("reference below the band, negative DM", ["1.2", "2.2", "2.4", "6.7"]), ("equal neighbours", ["3.1", "2.8", "2.2", "1.9", "0.2", "-0.4"])]
+    if ck.run.tier == "quick":
+        pats = pats[:3] + pats[5:]
+    n_ok = 0
+    dotted = f"{f_sd.module}.{f_sd.qualname}"
+    for label, ds_ in pats:
+        nchan = len(ds_)
+        vals = [sp.Rational(x) for x in ds_]
+
+        def ov(ev, args, kwargs, node, fr, fn, vals=vals):
+            arr = NdArr((len(vals),), [Num(v, isfloat=True) for v in vals])
+            arr.dtype = ExtV("numpy.float64")
+            return arr
+        for has_t in (True, False):
+            z = make_signal(prog, "RadioSignal", nchan=nchan, freq_align="center", start_time=has_t)
+            tag = f"[{label}: delays {ds_}{'' if has_t else ', no start_time'}]"
+            ev = ck.evaluator()
+            ev.overrides[dotted] = ov
+            out = ck.attempt("R3", f_inc.where, "incoherent_dedispersion with fixed delays " + tag, "evaluates", lambda: ev.call(f_inc, [z, dm], {}), ev=ev,
+                             allowed_guards=[])
+            if out is None:
+                continue
+            D = z.attrs["_data"].expr
+            pc = per_channel(out.attrs.get("_data"), D, nchan)
+            if pc is None:
+                ck.unk("R3", f_inc.where, "result data " + tag, "the result is made of time slices of the input's channels", repr(out.attrs.get("_data"))[:200])
+                continue
+            r = [math.floor(v + sp.Rational(1, 2)) for v in vals]
+            crop = -min(0, r[0], r[-1])
+            lo = [x + crop for x in r]
+            keep = N - max(lo)
+            bad = None
+            if len(pc) != nchan:
+                bad = f"{len(pc)} output channels for {nchan} input channels"
+            else:
+                for i, (l_, h_, src) in enumerate(pc):
+                    if src != i:
+                        bad = f"output channel {i} is taken from input channel {src}"
+                        break
+                    if sp.simplify(l_ - lo[i]) != 0 or sp.simplify(h_ - (lo[i] + keep)) != 0:
+                        bad = f"output channel {i} covers [{l_}, {h_}) of the input, expected [{lo[i]}, {lo[i]} + N - {max(lo)})"
+                        break
+            ck.same("R3", f_inc.where, "realignment " + tag,
+                    "output channel i is input channel i over [crop + round(d_i), crop + round(d_i) + N - max) with crop = -min(0, r_first, r_last)",
+                    bad is None, found=bad, nontrivial=True)
+            if has_t:
+                ck.eq("R3", f_inc.where, "start_time " + tag, "advances by crop/sample_rate", out.attrs["_start_time"].expr, (T0 + crop / SR) / Hz)
+            else:
+                ck.same("R3", f_inc.where, "start_time " + tag, "a signal without start time does not acquire one", out.attrs["_start_time"] is NONE,
+                        found=repr(out.attrs["_start_time"]))
+            n_ok += 1
+    ck.run.floor("R3", "fixed-delay realignment cases decided", n_ok, 6)
 
 
 def _freq_constraints(nchan):
